@@ -3,3 +3,5 @@ import SamVerif.Props.C15b
 that a transient edit of C08's files cannot fail the C15 proof gate). -/
 open SamVerif.FmtFull
 #print axioms renamed_roundtrip
+#print axioms regroup_relabel_commute
+#print axioms rename_back_restores_formatted
